@@ -100,7 +100,7 @@ Example C11_quiet_world_nonvacuous :
   let po0 : parse_oracle := fun _ => Some [] in
   let lab0 : label_oracle := fun k => [cl k] in
   let ops := [UCreateCC (mkCCObj [99] (FOk (mkCidr V4 167772160 27)) FEmpty 4 (Some [107]) [] false 1 0 0);
-              Construct None None [UOk]; StartInformers; ProcCC UOk;
+              Construct None None [UOk] []; StartInformers; ProcCC UOk;
               UCreateNode [110;49] [] []; UCreateNode [110;50] [] []; UCreateNode [110;51] [] [];
               DeliverNode; DeliverNode; DeliverNode; DeliverCC] in
   let w0 := run po0 lab0 init_world ops in
